@@ -400,7 +400,9 @@ pub fn property() -> Property {
                alignment predicates for all 4,096 ordered pairs and between sets for all aligned pairs and a == b; sliders: for every \
                square every subset of the relevant blocker squares (107,648 subsets in total), each with (a) no other bit, (b) all \
                irrelevant bits set, (c) own square set, (d) k random irrelevant patterns (k = 16 quick, 128 thorough), against ray walking; \
-               plus generated random 64-bit occupancies. Non-trivial = slider case with >= 1 blocker / aligned pair / square; distinct by \
+               plus generated random 64-bit occupancies; and the same subsets for bishop, rook and queen (6,946,816 queen subsets) built as \
+               valid positions (blockers = knights of both colours, kings off the relevant squares) and read through semilegal/legal move \
+               generation, cell_attackers and is_cell_attacked. Non-trivial = slider case with >= 1 blocker / aligned pair / square; distinct by \
                (piece, square, occupancy).",
         assumptions: &[
             "between sets are only specified for aligned pairs (every caller establishes alignment first)",
